@@ -95,6 +95,14 @@ type Contracts struct {
 	Files  []string
 	byFn   map[*ssa.Function]*FuncContract
 	External map[string]*FuncContract // assumed contracts on dependencies, keyed by short function name
+	UFuns    map[string]*PredDef      // ghost (uninterpreted) spec functions, defined by axioms
+	Axioms   []*AxiomDef
+}
+
+type AxiomDef struct {
+	Pkg  string
+	Name string
+	Body string
 }
 
 func (c *Contracts) lookupFn(f *ssa.Function) *FuncContract {
@@ -108,7 +116,7 @@ func (c *Contracts) lookupFn(f *ssa.Function) *FuncContract {
 }
 
 func loadContracts(root string) (*Contracts, error) {
-	cs := &Contracts{Funcs: map[string]*FuncContract{}, Preds: map[string]*PredDef{}, byFn: map[*ssa.Function]*FuncContract{}, External: map[string]*FuncContract{}}
+	cs := &Contracts{Funcs: map[string]*FuncContract{}, Preds: map[string]*PredDef{}, byFn: map[*ssa.Function]*FuncContract{}, External: map[string]*FuncContract{}, UFuns: map[string]*PredDef{}}
 	var files []string
 	filepath.Walk(root, func(p string, info os.FileInfo, err error) error { //nolint:errcheck
 		if err != nil {
@@ -195,6 +203,27 @@ func (cs *Contracts) parseFile(root, file string) error {
 			cs.Preds[pkg+"."+pd.Name] = pd
 			lastClause = &pd.Body
 			cur = nil
+			continue
+		case "ufun":
+			pd, err := parsePred(pkg, "spec", rest+" := 0")
+			if err != nil {
+				return fmt.Errorf("%s:%d: %v", file, ln+1, err)
+			}
+			// result type text: after the closing paren
+			pd.Result = strings.TrimSpace(rest[strings.LastIndex(rest, ")")+1:])
+			cs.UFuns[pd.Name] = pd
+			cur = nil
+			lastClause = nil
+			continue
+		case "axiom":
+			f := strings.SplitN(rest, " ", 2)
+			if len(f) != 2 {
+				return fmt.Errorf("%s:%d: bad axiom", file, ln+1)
+			}
+			ax := &AxiomDef{Pkg: pkg, Name: f[0], Body: f[1]}
+			cs.Axioms = append(cs.Axioms, ax)
+			cur = nil
+			lastClause = &ax.Body
 			continue
 		case "struct":
 			// struct T guarded_by <lock>: f1, f2
